@@ -348,6 +348,14 @@ def check_probe(ctx, case, world, cur, op, attr):
     if not same_content(fam, T, got, exp[1]):
         ctx.fail(f"{route}|{mode}|content", case, f"{op} on {before_content!r} gave {got!r}; the plain container operation gives {exp[1]!r}")
         return False, False
+    # a keyed container's by-key view shows the very elements its by-position view holds
+    raw_after = object.__getattribute__(target, "__dict__").get(attr)
+    if hasattr(raw_after, "keys") and hasattr(raw_after, "get") and not isinstance(raw_after, dict):
+        for x in list(raw_after):
+            kx = getattr(x, "k", x)
+            if raw_after.get(kx) is not x:
+                ctx.fail(f"{route}|{mode}|key_view_stale", case, f"{op} on {before_content!r}: element {x!r} is in the container, but looking its key {kx!r} up gives {raw_after.get(kx)!r}")
+                return False, True
     after_other = {k: v for k, v in model.state_of(target).items() if k != attr}
     if after_other != before_other:
         ctx.fail(f"{route}|{mode}|other_attributes", case, f"{op} changed other attributes: {before_other} -> {after_other}")
